@@ -60,9 +60,7 @@ func genBits(c *gal.Ctx) {
 			// SDM: ECX[11] = 1 means IA32_DEBUG_INTERFACE exists; then it must be locked and disabled
 			// and not forced by the PCH strap. Without the MSR there is nothing to check.
 			spec := !sdbg || (!strap && lock && !en)
-			knownSig = sdbg || (!strap && lock && !en) // the SDBG test inverted
-			add("IA32DebugInterfaceLockedDisabled", 2, []uint64{uint64(ecx), msr}, got, spec, "pkg/test/cpu.go:IA32DebugInterfaceLockedDisabled",
-				"C05-DebugInterface-inverted", "IA32DebugInterfaceLockedDisabled skips the MSR check exactly when CPUID reports the debug interface (SDBG) and reads the MSR when it does not exist")
+			add("IA32DebugInterfaceLockedDisabled", 2, []uint64{uint64(ecx), msr}, got, spec, "pkg/test/cpu.go:IA32DebugInterfaceLockedDisabled", "", "")
 		}
 	}
 
